@@ -167,3 +167,61 @@ Theorem dry_run_dimension_refuted :
   dims_of_var good "auxiliary" = ["time"] /\
   covers head_code file_two [fq; fr] = false /\ covers new_code file_two [fq; fr] = true.
 Proof. vm_compute. repeat split. Qed.
+
+(* seeded C17-s6: the alias 'r+' passes the validation but is not resolved,
+   so none of the tests for mode 'a' holds: no read pass, no refusal, one
+   direct pass that writes the global attributes like a new file *)
+Definition direct_run (vr : variant) (o : gopts) (e : file) (new : list field) : wst :=
+  log [EClose] (write_fields (w_mode vr) new (write_globals (w_mode vr) o new (log [EOpenA] (init e)))).
+Definition write_call_unresolved (vr : variant) (spelling : string) (netcdf4 : bool) (o : gopts) (e : file)
+           (orig new : list field) : file :=
+  if String.eqb spelling "r+" then w_file (direct_run vr o e new)
+  else fst (write_call vr spelling netcdf4 o e orig new).
+
+Definition file_acdd : file :=
+  {| d_dims := d_dims file_z; d_vars := d_vars file_z; d_gatts := [("Conventions", "CF-1.11 ACDD-1.3"); ("comment", "c0")] |}.
+Definition commented2 : field := mk_f "q2" [("comment", "hello"); ("units", "1")] [] [] [] [] None.
+
+Theorem mode_alias_unresolved_refuted :
+  d_gatts (write_call_unresolved new_code "r+" true no_opts file_acdd [fz_plain] [commented2])
+    = [("Conventions", "CF-1.11"); ("comment", "hello")] /\
+  d_gatts (fst (write_call new_code "r+" true no_opts file_acdd [fz_plain] [commented2])) = d_gatts file_acdd /\
+  write_call_unresolved new_code "a" true no_opts file_acdd [fz_plain] [commented2]
+    = fst (write_call new_code "r+" true no_opts file_acdd [fz_plain] [commented2]) /\
+  (* a request that must be refused is carried out *)
+  snd (write_call new_code "r+" true no_opts file_z [fz_plain] [dsg]) = CAppend Refused /\
+  map v_name (d_vars (write_call_unresolved new_code "r+" true no_opts file_z [fz_plain] [dsg])) = ["z"; "tb"; "p"].
+Proof. vm_compute. repeat split. Qed.
+
+(* C17-fix3-2: a variable of the dataset that the re-read does not show (here:
+   nothing at all is re-read) is written over without the repair - the call
+   fails half-way on the name in use - and avoided with it *)
+Theorem dataset_names_head3_refuted :
+  snd (append head3_code true no_opts file_z [] [fz_plain]) = Failed /\
+  snd (append new_code true no_opts file_z [] [fz_plain]) = Done /\
+  map v_name (d_vars (fst (append new_code true no_opts file_z [] [fz_plain]))) = ["z"; "tb"; "z_1"; "tb_1"].
+Proof. vm_compute. repeat split. Qed.
+
+(* C17-fix3-4: a dataset (of any origin) with a dimension "time" that has no
+   coordinate variable and a scalar coordinate variable of the same name.
+   Without the repair the dry run, having registered the dimension, renames
+   the scalar variable "time_1" - a name the dataset does not have - and an
+   appended field with an equal scalar coordinate refers to "time_1". *)
+Definition tsc : cst := mk_k (Some "time") (mk_c KDim [("standard_name", "time")] [1%Z] 7) [1%nat].
+Definition f_ts (nv : string) (t : Z) : field :=
+  {| f_ncvar := Some nv; f_props := []; f_gl := []; f_groups := [];
+     f_axes := [{| a_size := 4; a_ncdim := Some "time" |}; {| a_size := 1; a_ncdim := None |}];
+     f_daxes := [0%nat]; f_tok := t; f_dim := [tsc]; f_aux := []; f_anc := []; f_msr := []; f_ref := None |}.
+Definition file_ts : file :=
+  {| d_dims := [("time", 4%Z)];
+     d_vars := [mkv "time" [] [("standard_name", "time")] []; mkv "q" ["time"] [] [("coordinates", [("", "time")])]];
+     d_gatts := [("Conventions", "CF-1.11")] |}.
+Definition renaming_code := {| fx_formula := true; fx_global := true; fx_ft := true; fx_dimname := true;
+                               fx_dryname := true; fx_names := true; fx_norename := false |}.
+
+Theorem dry_run_rename_refuted :
+  refs_of (fst (append renaming_code true no_opts file_ts [f_ts "q" 1] [f_ts "r" 2])) "r" = [("coordinates", [("", "time_1")])] /\
+  lookup_var (fst (append renaming_code true no_opts file_ts [f_ts "q" 1] [f_ts "r" 2])) "time_1" = None /\
+  refs_of (fst (append new_code true no_opts file_ts [f_ts "q" 1] [f_ts "r" 2])) "r" = [("coordinates", [("", "time")])] /\
+  map v_name (d_vars (fst (append new_code true no_opts file_ts [f_ts "q" 1] [f_ts "r" 2]))) = ["time"; "q"; "r"].
+Proof. vm_compute. repeat split. Qed.
